@@ -204,8 +204,38 @@ func c18Probes(r *mon.Rng, lits []string) []*model.Val {
 	return out
 }
 
+// c18BadNumerals: lists holding a numeral JSON does not have (leading zeros, bare sign, missing
+// digits). The inline form refuses them; the rule must refuse them too (with an error, not a
+// panic), and AddRule must not take such a rule.
+func c18BadNumerals(c *mon.Ctx, r *mon.Rng) {
+	first := mon.Pick(r, []string{"2", "\"a\"", "true"})
+	bad := mon.Pick(r, []string{"-01.5", "-00.5", "-007", "01", "00", "-00", "1.", "-", "+1", ".5", "-01", "1e", "0x10"})
+	text := "[" + first + ", " + bad + "]"
+	if r.Bool() {
+		text = "[\n  " + bad + ",\n  " + first + "\n]"
+	}
+	inline := lib.Check(lib.Spec{Text: first + " // {enum: " + strings.ReplaceAll(text, "\n", " ") + "}"})
+	c.Eval(1)
+	c.Count("enum lists with a numeral JSON does not have", 1)
+	if inline.OK {
+		return // the inline form takes it: nothing to compare with
+	}
+	e := enum.New("@E", text)
+	o := lib.Safe(e.Check)
+	if o.Panic != "" || o.OK {
+		c.Violate("rule-check", c18RuleCase{text}, "reject (as the inline list)", o.String(), "enum.Check() accepts (or panics on) a list the inline form refuses")
+		return
+	}
+	if o4 := lib.Safe(func() error { return newSchemaForRule().AddRule("@E", enum.New("@E", text)) }); o4.OK || o4.Panic != "" {
+		c.Violate("add-rule", c18RuleCase{text}, "reject", o4.String(), "AddRule accepts an enum rule the inline form refuses")
+	}
+}
+
 func c18EnumUnit(c *mon.Ctx, r *mon.Rng, per int) {
 	for k := 0; k < per; k++ {
+		if k%4 == 0 {
+			c18BadNumerals(c, r)
+		}
 		lits := gen.EnumList(r, 7)
 		layout := mon.Pick(r, gen.EnumLayouts)
 		et := gen.EnumLayout(r, lits, layout)
